@@ -368,7 +368,11 @@ func (tc *TypeChecker) ValidateObjectAgainstTypeDef(obj map[string]interface{}, 
 	// Check required fields (fields with defaults are not required)
 	for _, field := range typeDef.Fields {
 		if field.Required && field.Default == nil {
-			if _, exists := obj[field.Name]; !exists {
+			// A required field must carry a value: an explicit null is as
+			// good as absent (unless the field's type is optional).
+			value, exists := obj[field.Name]
+			_, nullable := field.TypeAnnotation.(OptionalType)
+			if !exists || (value == nil && !nullable) {
 				return fmt.Errorf("missing required field: %s", field.Name)
 			}
 		}
